@@ -294,9 +294,14 @@ class AsyncHTTP11Connection(AsyncConnectionInterface):
         # If the HTTP connection is idle but the socket is readable, then the
         # only valid state is that the socket is about to return b"", indicating
         # a server-initiated disconnect.
+        #
+        # The state is checked again after the socket has been polled: another
+        # thread may have started a request on the connection in the meantime,
+        # in which case what is readable is the response to that request.
         server_disconnected = (
             self._state == HTTPConnectionState.IDLE
             and self._network_stream.get_extra_info("is_readable")
+            and self._state == HTTPConnectionState.IDLE
         )
 
         return keepalive_expired or server_disconnected
